@@ -414,3 +414,8 @@ def signature(v):
     if v.get('fault'):
         site = v['fault']['identity']
     return {'entry': v['entry'], 'vars': v['vars'], 'origin': origin, 'site': site}
+
+
+def dedup_key(sig):
+    """At most one reported replay per (entry point, leaked variables, failing function)."""
+    return [sig['entry'], sig['vars'], (sig.get('origin') or {}).get('function')]
